@@ -102,7 +102,10 @@ def cases(spec, ctx):
             sel = rng.sample(range(nv), rng.randint(1, nv)) if rng.random() < 0.5 else list(range(nv))
             fault = rng.random() < 0.5
             if fault:
-                cond = ["and", cond, ["fpred", "f_ok", [["v", sel[0], []]]]]
+                # user code that raises in the middle of an evaluation: a predicate, or a property read by a comparison
+                inj = ["fpred", "f_ok", [["v", sel[0], []]]] if rng.random() < 0.6 else \
+                    ["cmp", ">=", ["v", sel[0], [["a", "fa"]]], ["lit", 0]]
+                cond = ["and", cond, inj] if rng.random() < 0.7 else ["and", inj, cond]
             pool.append({"cond": cond, "sel": sel, "fault": fault})
         if rng.random() < 0.12:
             # the same decorated predicate at two sites: over two different attribute VALUES of the same objects, the other
